@@ -35,6 +35,10 @@ CHECKS = {
          "exhaustive enumeration of the finite domain (exit codes x terminating signals x faults x child variants x 4 runner set-ups) on real runs, against the documented status table",
          "Every exit code (quick: 6 representatives, thorough: 0..255), every signal 1..64 whose default action terminates (self-raised with a raw kill and default disposition), five kernel-forced faults, SIGKILL from the host while the program runs, and main-process endings combined with a child that exits / is signalled before, while or after the main process ends, under the ptrace runner, the namespace runner, and a container with sync before and after exec; result status and exit value compared with the README table.",
          "The namespace runner's program is pid 1 of its pid namespace: the kernel discards default-disposition signals it raises itself, so for that runner the signal domain is faults + host SIGKILL. Stop signals and default-ignored signals are outside the property."),
+ "C15": ("exploration",
+         "bounded-exhaustive enumeration of hostile syscall arguments (one operation per run) and of SIGKILL instants at every tracer step, on a real tracer and tracee; oracle: the result is a verdict about the program, never Runner Error, and the run returns",
+         "Every traced path syscall (25) x pointer kind for every path argument {NULL, unmapped, kernel half, odd, short string, 4095/4096/4097/8192 bytes without NUL, string ending exactly at / crossing into a PROT_NONE page} x dirfd encoding {AT_FDCWD, 64-bit garbage, (thorough) -1, closed, zero-extended AT_FDCWD} x {soft-ban-all, allow-all policy}; syscall numbers unknown / negative / x32 / above 2^32; unreadable, short and NULL open_how; and a fork+thread program in which the main process or the most recently reported task is SIGKILLed at the k-th tracer step for every k (each Debug call of the tracer loop, including 'before PTRACE_SETOPTIONS' and 'between trap and skip').",
+         "Kill instants are exhaustive at tracer-step granularity, not instruction granularity. The tracee is the freestanding sysrun probe."),
  "C18": ("exploration",
          "bounded-exhaustive enumeration of entry sets x query paths and of counter call histories on the exported filehandler API, against an independent definition of coverage",
          "Every entry set of size <=2 (thorough: <=3) over {exact, d/, d/*} x all paths to depth 3 (thorough: 4) is queried with every path incl. '/' and the empty path; every (Writable,Readable,Statable,SoftBan) 4-tuple of sets of size <=1 at depth 2 is checked through Handler.CheckRead/Write/Stat; a real symlink forest covers the raw-or-real clause; every counter table of <=2 names x counts {-1..3} is driven with every call sequence up to length 6 (7). Complete enumeration, no sampling.",
